@@ -6,6 +6,7 @@
   Line-by-line transcription; the recursion of `sortCallback` takes fuel (running out of fuel
   models unbounded recursion in the Go code, i.e. a stack overflow).
 -/
+import GormModel.Gen.CallbackFacts
 namespace Gorm
 
 structure Cb where
@@ -49,6 +50,7 @@ deriving Repr
 inductive SortErr where
   | conflict (name other : String)
   | fuel
+  | cycle      -- only with the depth guard (repair of F12): `depth > 2*len(cs)+2`, returned as an error
 deriving Repr, DecidableEq
 
 def setAfter (cs : Array Cb) (i : Nat) (v : String) : Array Cb :=
@@ -195,6 +197,83 @@ def Proc.apply (p : Proc) (op : RegOp) : Proc × Option SortErr :=
 def Proc.run (p : Proc) (ops : List RegOp) : Proc × List (Option SortErr) :=
   ops.foldl (fun (acc : Proc × List (Option SortErr)) op =>
     let (p', e) := acc.1.apply op
+    (p', acc.2 ++ [e])) (p, [])
+
+/-! ## The repaired variants of `sortCallbacks` / `compile`
+
+  Each repair of callbacks.go is a flag; which flags are set in the tree under check is REGENERATED
+  (extract/gen_c17.go -> Gen/CallbackFacts.lean). With all flags off the functions below are the
+  functions above (`sortCallbacksR_none`, `Proc.runR_none` in Lemmas/CallbacksRepair.lean). -/
+
+structure CbRepairs where
+  /-- F12: `sortCallback` counts its recursion depth and returns an error when `depth > 2*len(cs)+2` -/
+  depthGuard : Bool := false
+  /-- F20: after the `sort.SliceStable` pre-pass `sortCallbacks` replaces `cs` by copies of the records, so
+      that the `before`/`after` rewrites of one sort do not reach `p.callbacks` -/
+  sortCopies : Bool := false
+  /-- F19: the comparator of the pre-pass is `!star(cs[i]) && star(cs[j])` (a strict weak order) -/
+  starOrder : Bool := false
+deriving Repr, DecidableEq
+
+/-- `star := func(c *callback) bool { return c.before == "*" || c.after == "*" }` -/
+def Cb.star (c : Cb) : Bool := c.before = "*" || c.after = "*"
+
+/-- comparator of the repaired pre-pass: less(i, j) = `!star(cs[i]) && star(cs[j])` -/
+def starLess (ci cj : Cb) : Bool := !ci.star && cj.star
+
+/-- Go's insertion sort (see `insertBack`) for an arbitrary comparator -/
+def insertBackBy (less : Cb → Cb → Bool) (x : Cb) : List Cb → List Cb
+  | [] => [x]
+  | y :: ys => if less x y then y :: insertBackBy less x ys else x :: y :: ys
+
+def stableSortBy (less : Cb → Cb → Bool) (l : List Cb) : List Cb :=
+  (l.foldl (fun acc x => insertBackBy less x acc) []).reverse
+
+/-- the `sort.SliceStable` pre-pass of the tree under check -/
+def prepass (r : CbRepairs) (l : List Cb) : List Cb :=
+  if r.starOrder then stableSortBy starLess l else stableSortCbs l
+
+/-- the depth guard `depth > 2*len(cs)+2`: the outermost call runs at depth 1, so exactly the calls nested
+    deeper than `depthBound n` are refused -- which is what `sortCallback` does when started with this fuel -/
+def depthBound (n : Nat) : Nat := 2 * n + 2
+
+/-- with the guard, running out of fuel IS the guard's `return fmt.Errorf(...)` -/
+def SortErr.guarded : SortErr → SortErr
+  | .fuel => .cycle
+  | e => e
+
+/-- `sortCallbacks(cs)` of the tree under check -/
+def sortCallbacksR (r : CbRepairs) (cs0 : List Cb) : SortOut :=
+  let cs := prepass r cs0
+  let names := cs.map (·.name)
+  let fuel := if r.depthGuard then depthBound cs.length else sortFuel cs.length
+  let res := sortLoop names fuel cs.length 0 { cs := cs.toArray, sorted := [] }
+  -- what `p.callbacks` holds afterwards: the pre-sorted slice; its records carry the rewrites unless the
+  -- sort worked on copies
+  let outCs := if r.sortCopies then cs else res.1.cs.toList
+  match res.2 with
+  | some e => { cs := outCs, fns := [], sorted := res.1.sorted,
+                err := some (if r.depthGuard then e.guarded else e) }
+  | none => { cs := outCs, fns := selectFns names res.1.cs.toList res.1.sorted, sorted := res.1.sorted, err := none }
+
+/-- `compile()` of the tree under check -/
+def Proc.compileR (r : CbRepairs) (p : Proc) : Proc × Option SortErr :=
+  let cbs := p.callbacks.filter (·.matchOk)
+  let removed := (p.callbacks.filter (·.remove)).map (·.name)
+  let cbs := if removed.isEmpty then cbs else removeCallbacks cbs removed
+  let out := sortCallbacksR r cbs
+  ({ callbacks := out.cs, fns := out.fns, order := out.sorted }, out.err)
+
+def Proc.applyR (r : CbRepairs) (p : Proc) (op : RegOp) : Proc × Option SortErr :=
+  ({ p with callbacks := p.callbacks ++ [op.toCb] }).compileR r
+
+/-- the repairs present in the tree under check (regenerated facts) -/
+def treeRepairs : CbRepairs :=
+  { depthGuard := Gen.sortDepthGuard, sortCopies := Gen.sortWorksOnCopies, starOrder := Gen.sortStarOrder }
+
+def Proc.runR (r : CbRepairs) (p : Proc) (ops : List RegOp) : Proc × List (Option SortErr) :=
+  ops.foldl (fun (acc : Proc × List (Option SortErr)) op =>
+    let (p', e) := acc.1.applyR r op
     (p', acc.2 ++ [e])) (p, [])
 
 end Gorm
